@@ -701,6 +701,22 @@ def opConstruct (j : Json) : R Json := do
   let links := (graphLinks 0 evs).map fun l => Json.arr #[Json.str (idOf l.src), Json.str (idOf l.dst)]
   pure (Json.mkObj [("nodes", Json.arr nodes.toArray), ("links", Json.arr links.toArray)])
 
+open Edxml.Miner.Extract in
+/-- `extract_result_set`: nodes with their seed confidences → instances (seed, attributes, node ids) -/
+def opExtract (j : Json) : R Json := do
+  let min ← ratOf (← fld j "min")
+  let nodes ← (← fldArr j "nodes").mapM fun n => do
+    let sc ← (← fldArr n "sc").mapM fun e => do
+      match ← arr e with
+      | [s, c] => pure ((← s.getNat?), (← ratOf c))
+      | _ => throw "seed confidence = [seed, confidence]"
+    pure ({ id := ← fldNat n "id", attr := ← fldStr n "attr", value := ← fldStr n "value", sc := sc } : ONode)
+  let out := (extract nodes min).map fun i =>
+    Json.mkObj [("seed", Json.num (i.seed : Nat)),
+      ("attrs", Json.arr (i.attrs.map fun x =>
+        Json.arr #[Json.str x.name, Json.str x.value, Json.arr (x.nodes.map fun (k : Nat) => Json.num k).toArray]).toArray)]
+  pure (Json.mkObj [("instances", Json.arr out.toArray)])
+
 open Edxml.Transcode in
 partial def rvalOf (j : Json) : R RVal :=
   match j with
@@ -866,6 +882,7 @@ def dispatch (j : Json) : R Json := do
   | "search" => opSearch j
   | "pick" => opPick j
   | "construct" => opConstruct j
+  | "extract" => opExtract j
   | "mediator" => opMediator j
   | "lookup" => opLookup j
   | "template" => opTemplate j
